@@ -73,6 +73,13 @@ class C10(Prop):
             m = re.match(r"^\d+\s+pipe2\(\[(\d+), (\d+)\]", l)
             if m:
                 runtime_fds.update(m.groups())
+            # (strace -f splits a call that another thread interrupts into `<unfinished ...>` and `<... resumed>` lines)
+            m = re.match(r"^\d+\s+<\.\.\. eventfd2 resumed>.*\)\s+=\s+(\d+)", l)
+            if m:
+                runtime_fds.add(m.group(1))
+            m = re.match(r"^\d+\s+<\.\.\. pipe2 resumed>\s*\[(\d+), (\d+)\]", l)
+            if m:
+                runtime_fds.update(m.groups())
             if "VERIF-MARKER-START" in l:
                 inside = True
                 continue
